@@ -157,6 +157,14 @@ def _q(kind, v, unit):
     return U.cls(kind)(v, unit)
 
 
+def _pressure(case):
+    """the tabulated pressure angle, written in the case's unit (correctly rounded conversion from degrees)"""
+    u = case.get('pressure_unit', 'deg')
+    if u == 'deg':
+        return _q('Angle', case['pressure_deg'], 'deg')
+    return _q('Angle', float(U.convert_exact('Angle', case['pressure_deg'], 'deg', u)), u)
+
+
 def _from_si(kind, si, unit):
     return si / U.factor_f(kind, unit)
 
@@ -221,7 +229,7 @@ def check_ctor(case) -> Result:
                 elif hs > WORM_LIMIT[pa]:
                     invalid.append('helix>worm-limit')
                 kw['helix_angle'] = _q('Angle', *case['helix'])
-                kw['pressure_angle'] = _q('Angle', pa, 'deg')
+                kw['pressure_angle'] = _pressure(case)
             getattr(mo, which)(name='g', n_teeth=case['n_teeth'], inertia_moment=J, **kw)
         elif which == 'WormGear':
             pa = case['pressure_deg']
@@ -233,7 +241,7 @@ def check_ctor(case) -> Result:
             if case['n_starts'] < 1:
                 invalid.append('n_starts<1')
             mo.WormGear(name='w', n_starts=case['n_starts'], inertia_moment=J,
-                        helix_angle=_q('Angle', *case['helix']), pressure_angle=_q('Angle', pa, 'deg'))
+                        helix_angle=_q('Angle', *case['helix']), pressure_angle=_pressure(case))
         outcome = 'constructed'
     except ValueError:
         outcome = 'ValueError'
@@ -300,6 +308,7 @@ def _worm(draw, case):
     u = draw(st.sampled_from(list(U.UNITS['Angle'])))
     deg = draw(st.one_of(st.floats(0.5, 89), st.sampled_from([lim, lim * 1.001, lim * 0.999, lim + 1, lim - 1])))
     case['pressure_deg'] = pa
+    case['pressure_unit'] = draw(st.sampled_from(list(U.UNITS['Angle'])))
     case['helix'] = [_from_si('Angle', math.radians(deg), u), u]
 
 
